@@ -254,6 +254,23 @@ static void utf8_run(void) {
       }
     }
     vh_set_exhaustive(true);
+  } else if (!strcmp(st, "alpha")) {
+    /* every string of up to N symbols over 8 UTF-8-significant bytes: leads of each width, continuations, the
+     * second bytes that decide overlong / surrogate / out-of-range, ASCII. Reaches lengths the byte sweep cannot,
+     * so DFA-state x position interactions (strides, fast paths, look-ahead) are exercised. */
+    static const uint8_t al[8] = {0x61, 0xc3, 0xa9, 0xe2, 0x82, 0xf0, 0x90, 0xed};
+    size_t N = O.budget ? (size_t)O.budget : (O.thorough ? 9 : 7);
+    g_by_construction = false;
+    uint8_t b[16];
+    for (size_t len = 4; len <= N; len++) {
+      uint64_t total = (uint64_t)1 << (3 * len);
+      for (uint64_t v = 0; v < total; v++) {
+        if ((int)((v >> (3 * (len - 2))) % (uint64_t)O.nshards) != O.shard) { v |= ((uint64_t)1 << (3 * (len - 2))) - 1; continue; }
+        for (size_t i = 0; i < len; i++) b[i] = al[(v >> (3 * (len - 1 - i))) & 7];
+        utf8_case(b, len, (v & 15) == 0 ? 7 : 1);
+      }
+    }
+    vh_set_exhaustive(false);
   } else if (!strcmp(st, "faults")) {
     uint64_t nt = O.budget ? O.budget : (O.thorough ? 200000 : 20000);
     uint8_t txt[600], mut[640];
@@ -279,6 +296,18 @@ static void utf8_run(void) {
         utf8_case(mut, n + flen[k], (u & 3) == 0 ? 7 : 1);
         /* truncate the scalar that starts here */
         if (i < ns && starts[i + 1] - at > 1) { size_t cut = 1 + vh_below(&r, starts[i + 1] - at - 1); memcpy(mut, txt, at + cut); memcpy(mut + at + cut, txt + starts[i + 1], n - starts[i + 1]); utf8_case(mut, n - (starts[i + 1] - at - cut), 1); }
+      }
+      /* split a multi-byte scalar: its lead byte(s), then a run of other valid scalars or ASCII, then its remaining continuation bytes */
+      for (size_t i = 0; i < ns; i++) {
+        size_t at = starts[i], sl = starts[i + 1] - at;
+        if (sl < 2) continue;
+        for (size_t run = 1; run <= 9; run += (run < 5 ? 1 : 4)) {
+          size_t cut = 1 + vh_below(&r, sl - 1), mn = 0;
+          memcpy(mut, txt, at + cut); mn = at + cut;
+          for (size_t k = 0; k < run; k++) { if (vh_below(&r, 3)) mut[mn++] = (uint8_t)('a' + k); else mn += put_scalar(mut + mn, rand_scalar(&r)); }
+          memcpy(mut + mn, txt + at + cut, n - at - cut); mn += n - at - cut;
+          utf8_case(mut, mn, 1);
+        }
       }
       /* every proper prefix (truncation in the middle of a sequence is invalid) */
       if (n <= 40) for (size_t k = 1; k < n; k++) utf8_case(txt, k, 1);
